@@ -5,7 +5,7 @@ cd "$(dirname "$0")"
 export GOFLAGS=-mod=mod GOPROXY=off GOSUMDB=off GOTOOLCHAIN=local
 mkdir -p .work/bin evidence replays
 (cd harness && go build -o ../.work/bin/extract ./cmd/extract && ../.work/bin/extract -repo ${VERIF_REPO:-/repo} -out ../lean/Uhppote/Gen)
-(cd lean && lake build modeldrv oracle)
+(cd lean && lake build oracle mdl_bcd mdl_order mdl_codec mdl_ops mdl_addr mdl_zones mdl_text mdl_insulate mdl_net)
 (cd lean && for p in C01 C02 C03 C04 C05 C06 C07 C08 C09 C10 C11 C12 C13 C14 C15 C16 C17 C18; do lake build Uhppote.Props.$p Uhppote.Pins.$p; done)
 (cd harness && go build -tags verif -o ../.work/bin/diff ./cmd/diff && go build -tags verif -o ../.work/bin/net ./cmd/net && go build -race -tags verif -o ../.work/bin/netrace ./cmd/net)
 echo setup done
